@@ -383,7 +383,8 @@ def main():
                 shape = tuple(s for _, _, s in refs)
                 fq = ("/" + "/".join(path + (n,))) if path else n
                 dnames = tuple("/" + "/".join(p + (d,)) for p, d, _ in refs)
-                ds.createVariable(fq, data=np.zeros(shape, dtype=dt), dims=dnames)
+                # the byte order the data happens to be stored in is not part of the type
+                ds.createVariable(fq, data=np.zeros(shape, dtype=rng.choice(["<", ">", "="]) + dt if dt[1] != "1" else dt), dims=dnames)
                 spec.append((fq, dt, shape, list(dnames)))
         add_vars((), set())
         for g in rng.sample(GROUPS, rng.randint(0, 2)):
